@@ -55,6 +55,7 @@ def units(ctx):
         for i in range(len(red)):
             yield ("quads", i)
     yield from hist.hist_units()
+    yield ("long",)
 
 
 def _mk(notes):
@@ -84,6 +85,17 @@ HIST_ARGS = [["pad", "d+5"], ["pad", "2d"], ["cutoff", 4, 2], ["cutoff", 12, 6],
 def gen_cases(unit, ctx):
     p, (c0, c1) = ctx["p"], ctx["ch"]
     kind = unit[0]
+    if kind == "long":
+        for n in (16, 48, 120):
+            for step in (5, 7):
+                ns = lib.long_desc(n, p - 2, (c0, c1, 9), step, lens=(3, 9, 5, 14))
+                end = max(x[0] + x[1] for x in ns)
+                for build in ("abs", "rel"):
+                    for op in [["pad", end + 500], ["pad", 3], ["cutoff", 4, 2], ["cutoff", 12, 6], ["cutoff", 6, 6], ["scale", 2],
+                               ["scale", 7], ["chan", 11]]:
+                        yield {"notes": [list(x) for x in ns], "events": [["ts", 0, 3, 4], ["ks", step * n // 2, "G"]],
+                               "dur": end + 10, "build": build, "op": op}
+        return
     if kind == "hist":
         for h in hist.hist_of_unit(unit):
             for op in HIST_ARGS:
